@@ -289,7 +289,7 @@ def _admissible(spec):
 
 
 # ---------------------------------------------------------------------------
-HIER = ['P', 'U2', 'AB', 'SH', 'L', 'T1', 'DI', 'DP']
+HIER = ['P', 'U2', 'AB', 'SH', 'L', 'T1', 'DI', 'DP', 'UI']
 
 
 def enum_tagged(maxn):
